@@ -35,13 +35,13 @@ CHECKS = {
                        "unchanged, and a probe record from every logger must have the shape of its state (JSON object line / ESC-coloured / "
                        "logfmt). A bounded-history twin from New confirms reachability.",
         "bounds": {"quick": "inductive step (steps=1) from arbitrary states; history twin steps=2 from New",
-                   "thorough": "steps=2 from arbitrary states; history twin steps=3 from New"},
+                   "thorough": "as quick (with eight operations, two steps from an arbitrary state and three steps from the initial state did not finish in 15 minutes; the one-step form from an arbitrary state is the inductive argument)"},
         "outside": "probe record content beyond its shape (C04-C06); user marshallers",
         "assumptions": ["environment stubs as in C01", "the record shape test classifies by first/last bytes and presence of ESC"],
         "runs": [
-            {"harness": "VH_C11", "quick": {"arbitrary": 1, "steps": 1}, "thorough": {"arbitrary": 1, "steps": 2},
+            {"harness": "VH_C11", "quick": {"arbitrary": 1, "steps": 1}, "thorough": {"arbitrary": 1, "steps": 1},
              "covers": ["C11:steps-done", "C11:probed"]},
-            {"harness": "VH_C11", "quick": {"arbitrary": 0, "steps": 2}, "thorough": {"arbitrary": 0, "steps": 3},
+            {"harness": "VH_C11", "quick": {"arbitrary": 0, "steps": 2}, "thorough": {"arbitrary": 0, "steps": 2},
              "covers": ["C11:steps-done", "C11:probed"]},
         ],
     },
@@ -71,12 +71,12 @@ CHECKS = {
                        "set: tags, gating as the treated-as level (all int64 logger levels), routing to the error device. B: the same round "
                        "trips and ShortTag widths for the 12 built-in levels.",
         "bounds": {"quick": "L: name / short tag / record looked up before the value is registered; R also with two registrations (1-byte titles); titles: every ASCII string of length 1..3 (R) / 1..2 (N); 1 registration; all int64 values",
-                   "thorough": "titles of length 1..4 (R) / 1..3 (N); 2 registrations (R)"},
+                   "thorough": "R: two registrations with titles <= 2 bytes (two registrations with titles <= 4 bytes did not finish in 15 minutes); N: titles <= 3 bytes"},
         "outside": "non-ASCII titles (Unicode case folding); short tags longer than the slot width",
         "assumptions": ["environment stubs as in C01"],
         "runs": [
             {"harness": "VH_C17B", "covers": ["C17B:done"]},
-            {"harness": "VH_C17R", "quick": {"regs": 1, "title": 3}, "thorough": {"regs": 2, "title": 4},
+            {"harness": "VH_C17R", "quick": {"regs": 1, "title": 3}, "thorough": {"regs": 1, "title": 3},
              "covers": ["C17R:collision", "C17R:refused", "C17R:registered"]},
             {"harness": "VH_C17R", "quick": {"regs": 2, "title": 1}, "thorough": {"regs": 2, "title": 2}, "covers": ["C17R:collision", "C17R:refused", "C17R:registered"]},
             {"harness": "VH_C17N", "quick": {"title": 2}, "thorough": {"title": 3}, "covers": ["C17N:registered"]},
@@ -96,8 +96,8 @@ CHECKS = {
                        "interval arithmetic on monotone operations, else a solver proof). D: the fraction kernel, differentially against "
                        "time.ParseDuration executed on the same symbolic text.",
         "bounds": {"quick": "formatter totality: all int64, both styles; round trip: fractional style on ALL int64; compact style on the 1000 values next to MinInt64, MaxInt64 and 0; parser agreement with time.ParseDuration on all strings of <= 2 bytes (all byte values); fraction kernel D: texts <0|empty|1>.<1..12 arbitrary digits><h|m|s|ms|us|ns>, both parsers executed, float64 arithmetic as integer arithmetic where provably exact and in the solvers' IEEE-754 theory otherwise; M: optional sign and 1..3 components of 7 arbitrary digits + h (the running total next to and beyond the int64/uint64 boundaries), both parsers",
-                   "thorough": "plus round trip of the compact style on all int64; D also with the integer part 2562047 (hours next to the int64 overflow boundary); M with up to 4 components"},
-        "outside": "parser agreement beyond 2-byte strings (3 bytes did not finish in 15 minutes: the error paths quote the input rune by rune)",
+                   "thorough": "D also with the integer part 2562047 (hours next to the int64 overflow boundary); M with up to 4 components"},
+        "outside": "parser agreement beyond 2-byte strings other than the D and M families (3 arbitrary bytes did not finish in 15 minutes: the error paths quote the input rune by rune); the round trip of the compact style on ALL int64 (it did not finish in 16 minutes; the extremes and the fractional style on all int64 are checked)",
         "assumptions": ["integer encoding: bit-wise operators only with constant masks/shift counts"],
         "runs": [
             {"harness": "VH_C20F", "pkg": "slog/internal/times", "params": {"frac": 1, "roundtrip": 0},
@@ -114,8 +114,6 @@ CHECKS = {
              "args": ["-fallback", "cvc5"], "covers": ["C20D:parsed", "C20D:accepted"]},
             {"harness": "VH_C20M", "pkg": "slog/internal/times", "quick": {"parts": 3, "digits": 7}, "thorough": {"parts": 4, "digits": 7},
              "args": ["-fallback", "cvc5"], "covers": ["C20M:parsed", "C20M:accepted"]},
-            {"harness": "VH_C20F", "pkg": "slog/internal/times", "params": {"frac": 0, "roundtrip": 1}, "thorough_only": True, "timeout_ms": 20000,
-             "args": ["-int", "-solver", "cvc5", "-fallback", "z3-new"], "covers": ["C20F:formatted", "C20F:parsed"]},
         ],
     },
     "C18": {
@@ -129,12 +127,12 @@ CHECKS = {
                        "from a call site whose directory is registered as protected, in 4 logger configurations, with the privacy and caller "
                        "flags on and every combination of the other ten flag bits: the payload must name the file and must not contain the directory.",
         "bounds": {"quick": "replacements shorter or longer than the prefix; R: 4 configurations x 1024 flag combinations; directory names of 1..2 letters over {a,b}; input paths up to 4 bytes over {/,.,a,b,~} (up to 2 after /Volumes/); 0..1 extra mapping added and optionally removed",
-                   "thorough": "directory names 1..2; input paths up to 6 bytes; 0..2 extra mappings"},
+                   "thorough": "as quick for plain mappings (input paths up to 6 bytes with 0..2 extra mappings did not finish in 15 minutes once relative prefixes and long replacements were added); the regexp run with directory names 1..2 and paths up to 4 bytes"},
         "outside": "regexp mappings (table kept empty: regexp execution on symbolic strings is not encoded); Windows paths; longer paths",
         "assumptions": ["os.Getwd returns /tmp (engine stub; the native replayer runs in /tmp)"],
         "replay_repeat": 64,
         "runs": [
-            {"harness": "VH_C18", "quick": {"dir": 2, "path": 4, "maps": 1, "relmaps": 1}, "thorough": {"dir": 2, "path": 6, "maps": 2, "relmaps": 1},
+            {"harness": "VH_C18", "quick": {"dir": 2, "path": 4, "maps": 1, "relmaps": 1}, "thorough": {"dir": 2, "path": 4, "maps": 1, "relmaps": 1},
              "covers": ["C18:returned", "C18:protected", "C18:outside"]},
             {"harness": "VH_C18R", "covers": ["C18R:written"]},
             {"harness": "VH_C18", "quick": {"dir": 1, "path": 3, "maps": 0, "regexp": 1}, "thorough": {"dir": 2, "path": 4, "maps": 1, "regexp": 1},
@@ -191,11 +189,11 @@ CHECKS = {
                        "remove deletes, reset restores defaults) and a probe record of a chosen severity must reach exactly the writers the "
                        "routing rule selects, each once; a LevelSettable destination must have been told the severity before its Write.",
         "bounds": {"quick": "probe records incl. the blank Print-severity record; sequences of <=2 operations on a fresh logger, 10 probe severities; New(...) with <=3 of the nine writer option constructors (set/add normal and error writers, add/remove/reset per-level writers for two levels, reset all); inductive step: ONE operation from every configuration with <=2 normal, <=1 error and <=1 per-level (Info) writers over the pool (136080 states x operations x probes), which covers histories of any length over such configurations",
-                   "thorough": "sequences of 3 operations; New(...) as quick"},
+                   "thorough": "as quick (sequences of 3 operations take about an hour: 4.5 million paths; they ran clean once, on an earlier version of the harness, and are not registered)"},
         "outside": "longer sequences; OffLevel probes (discarded by design)",
         "assumptions": ["os.Stdout/os.Stderr are recording sinks"],
         "runs": [
-            {"harness": "VH_C03", "quick": {"steps": 2}, "thorough": {"steps": 3}, "covers": ["C03:probed"]},
+            {"harness": "VH_C03", "quick": {"steps": 2}, "thorough": {"steps": 2}, "covers": ["C03:probed"]},
             {"harness": "VH_C03N", "quick": {"opts": 3}, "thorough": {"opts": 3}, "covers": ["C03N:probed"]},
             {"harness": "VH_C03I", "covers": ["C03I:probed"]},
         ],
@@ -209,11 +207,11 @@ CHECKS = {
                        "order, with the identical complete payload; at most one diagnostic record, a warning, to the warning destinations, "
                        "none when the failing record was a warning or warnings are not admitted; attempts bounded by |selected|+|warning "
                        "set|; a final call with faults switched off is delivered normally (no sticky state).",
-        "bounds": {"quick": "failing destinations report a comparable or an uncomparable (slice-typed) error; severities incl. Print-severity records with messages m / empty / two newlines; 1 faulty call + 1 recovery call; 6 severities", "thorough": "2 faulty calls + 1 recovery call"},
+        "bounds": {"quick": "failing destinations report a comparable or an uncomparable (slice-typed) error; severities incl. Print-severity records with messages m / empty / two newlines; 1 faulty call + 1 recovery call; 6 severities", "thorough": "as quick (2 failing calls before recovery did not finish in 15 minutes with the present severity, message and error-kind dimensions)"},
         "outside": "longer call sequences; writers that panic",
         "assumptions": ["os.Stdout/os.Stderr are recording sinks"],
         "runs": [
-            {"harness": "VH_C13", "quick": {"calls": 1}, "thorough": {"calls": 2}, "covers": ["C13:diagnostic", "C13:recovered"]},
+            {"harness": "VH_C13", "quick": {"calls": 1}, "thorough": {"calls": 1}, "covers": ["C13:diagnostic", "C13:recovered"]},
         ],
     },
     "C02": {
@@ -250,14 +248,14 @@ CHECKS = {
                        "(key,value) sequence of the logfmt record must equal the reference merge of the statement. G: the same inside a "
                        "group. L: 13..14 call-site attributes over two keys (8192+ layouts) through the real pdqsort.",
         "bounds": {"quick": "the unrelated Lattrs flag bit arbitrary in the deep-chain run; chain depth <= 2, <= 1 own attribute per logger, <= 1 context key, <= 2 call-site attributes; chain depth <= 4 with 0..1 own attributes per logger (every empty/non-empty pattern), no context key, <= 1 call-site attribute; 2 registered context keys (string/Stringer, each present or absent) on a single logger; groups of <= 3 members; 13 attributes over {a,b}",
-                   "thorough": "chain depth <= 3, <= 1 own attribute per logger, <= 1 context key, <= 2 call-site attributes (3 took 25 minutes alone); chain depth <= 4 with 0..2 own attributes; chains sharing one prepared attribute set; 13..15 attributes"},
+                   "thorough": "chain depth <= 3, <= 1 own attribute per logger, <= 1 context key, <= 2 call-site attributes (3 took 25 minutes alone); chain depth <= 4 with 0..1 own attributes in logfmt and JSON (0..2 did not finish in 15 minutes); chains sharing one prepared attribute set; 13..15 attributes"},
         "outside": "attribute lists of 17..64 elements; observation through the colored format (C06 checks key order there on fixed lists)",
         "assumptions": ["values are distinct integers tagging their source; observation through logfmt and JSON loggers without caller field"],
         "runs": [
             {"harness": "VH_C07", "quick": {"chain": 2, "own": 1, "ctxkeys": 1, "site": 2, "json": 1}, "thorough": {"chain": 3, "own": 1, "ctxkeys": 1, "site": 2, "json": 1},
              "covers": ["C07:compared"]},
             # deep chains with empty loggers in the middle (the inherit walk must not stop at them)
-            {"harness": "VH_C07", "quick": {"chain": 4, "own": 1, "ctxkeys": 0, "site": 1, "json": 0, "lattrs": 1}, "thorough": {"chain": 4, "own": 2, "ctxkeys": 0, "site": 1, "json": 1, "lattrs": 1},
+            {"harness": "VH_C07", "quick": {"chain": 4, "own": 1, "ctxkeys": 0, "site": 1, "json": 0, "lattrs": 1}, "thorough": {"chain": 4, "own": 1, "ctxkeys": 0, "site": 1, "json": 1, "lattrs": 1},
              "covers": ["C07:compared"]},
             # several registered context keys, present or absent in any pattern
             {"harness": "VH_C07", "quick": {"chain": 1, "own": 0, "ctxkeys": 2, "site": 1, "json": 0}, "thorough": {"chain": 1, "own": 1, "ctxkeys": 3, "site": 1, "json": 0},
